@@ -23,7 +23,7 @@ def load(p, d=None):
 def main():
     strengthening = load(os.path.join(V, "notes", "strengthening.json"), {})
     first = {}
-    for p in sorted(glob.glob(os.path.join(V, "notes", "audit_seeded_*_r[23]w*.json"))):
+    for p in sorted(glob.glob(os.path.join(V, "notes", "audit_seeded_*_r[234]w*.json"))):
         for r in load(p, []):
             x = r["patch"].replace("patch_", "").replace(".diff", "")
             first.setdefault((r["property"], x), bool(r.get("caught")))
@@ -63,7 +63,7 @@ def main():
                 e["detected_by"] = None
             variants.append(e)
         idx = dict(property=pid,
-                   origin="written by fresh sub-agents that saw only the property text and a scratch git worktree of /repo (nothing from /verif); rounds 2 and 3 additionally got one-line descriptions of the earlier ideas so as not to repeat them",
+                   origin="written by fresh sub-agents that saw only the property text and a scratch git worktree of /repo (nothing from /verif); rounds 2, 3 and 4 additionally got one-line descriptions of the earlier ideas so as not to repeat them",
                    what_i_ran="tools/confirm_seeded.py <id> (demo on clean HEAD = 0; git apply; go build + unedited suite green; demo != 0; checkout) in the scratch worktree, then tools/audit.py --dir seeded (git -C /repo apply; ./check <id> quick; git -C /repo checkout -- .)",
                    variants=variants)
         json.dump(idx, open(os.path.join(d, "meta.json"), "w"), indent=1)
